@@ -81,3 +81,19 @@ add("C17", "E4", "exploration",
     "Existence/stat probes of outside paths are counted, not judged (the statement lists read/write/delete/rename/list); "
     "escaping strings that GC only compares (never dereferences) are accepted when the outcome equals a harmless in-root string.",
     "DESIGN.md 3 C17")
+add("C18", "E1", "model_checking",
+    "stateless interleaving exploration of concurrent create/open/first-append on the real code",
+    "Every interleaving of 2 creators/openers over the initial states {absent, healthy, pointer lost, v0 without pointer}, "
+    "local and CAS-S3, at shared-storage-operation granularity (unbounded where the callers only read; under a stated "
+    "preemption bound for the fresh-location races and first-append combinations; 3 callers bounded). Oracle: one uuid "
+    "everywhere, existing identity/schema/rows never replaced, acknowledged first appends present exactly once.",
+    "Same engine assumptions as C01; the final committed state is resolved by the independent reader.",
+    "DESIGN.md 3 C18")
+add("C10", "E4", "exploration",
+    "exhaustive enumeration of a byte-level pointer grammar x table histories (with orphan metadata) x follow-up operation sequences",
+    "Every pointer content class from a byte grammar is planted on each of 7 histories (clean, failed pointer write, dead "
+    "committer's orphan, interrupted creation, legacy names, lost race, 10+ versions) and followed by every sequence of "
+    "open/create/append/collect operations up to length 2 with fresh handles; identity, schema, snapshot list and rows are "
+    "compared with the last committed state of a reference model through the library and the independent reader.",
+    "A pointer naming an intact orphan file is indistinguishable on disk from a committed version (only identity/schema/openability judged there).",
+    "DESIGN.md 3 C10")
